@@ -11,7 +11,7 @@ from ..e1 import E1Sink, gate, replay_case, vacuity_floor
 from ..explore import explore
 
 PID = "C17"
-MON = ["C17r"]
+MON = ["C17r", "C17box"]
 _replay_e1 = replay_case(PID)
 DELTA = 2.0**-3
 
@@ -122,8 +122,33 @@ def run(ctx):
     base = [job(D, g, t, s, cons=c) for D in Ds for g in ("lin", "tight", "log", "lin2") for t in ("sphere_corner", "sphere_face", "sphere_in", "plateau")
             for c in (None, "ball") for s in seeds]
     base += [job(D, g, "sphere_corner", seeds[0], mode=m, opts={"max_fun_evals": 60, "noise_final_samples": 2}) for D in Ds for g in ("lin",) for m in ("decl", "spec")]
+    # off-grid hard bounds with the optimum on/beyond them, mesh re-expansion, poll points forced onto the mesh
+    base += [job(D, g, "sphere_out", s, opts=dict(o, max_fun_evals=70), mode=m) for D in (1, 2, 3) for g in ("lin2", "log2") for m in ("det", "decl")
+             for o in ({"search_mesh_expand": 1}, {"force_poll_mesh": True}, {"force_poll_mesh": True, "search_mesh_expand": 1}, {})
+             for s in (seeds + [seeds[0] + 11, seeds[0] + 12]) if not (q and m == "decl" and D == 3)]
+    # long noisy runs with forced poll mesh and search-mesh expansion (refine / re-expand cycles next to an off-grid bound)
+    base += [job(D, "lin2", t, s, opts={"force_poll_mesh": True, "search_mesh_expand": 1, "max_fun_evals": 220}, mode="decl")
+             for D, t in ((2, "sphere_out"), (3, "sphere_face")) for s in seeds]
+    # the near-bound starts and re-expansion stages of C01 (coarse tol_mesh), judged here with the C17 monitors
+    from . import c01 as _c01
+    for D in (1, 2):
+        for g in ("lin2", "log2"):
+            for m in ("det", "decl"):
+                for o in ({}, {"search_mesh_expand": 1}):
+                    for s_ in seeds + [seeds[0] + 11]:
+                        j = _c01.job(D, g, "in", m, "sphere_out", None, s_, opts=dict(o, max_fun_evals=70 if m == "det" else 90))
+                        j["monitors"] = MON
+                        j["seams"] = True
+                        base.append(j)
     st = explore(base, ["ans"], 0, sink, name="runs/b0")
     adv = [job(D, "lin", "adv", seeds[0], opts={"tol_mesh": 2.0**-4}) for D in (1, 2)]
+    # success-rich answer policy: the mesh is re-expanded again and again next to off-grid bounds (start on the upper bound)
+    for D in (1, 2):
+        for g in ("log", "log2", "lin2"):
+            j = job(D, g, "adv", seeds[0], opts={"tol_mesh": 2.0**-4, "max_fun_evals": 30 + 15 * D})
+            j["base"] = "S4"
+            j["x0"] = "ub"
+            adv.append(j)
     st = explore(adv, ["ans"], 1, sink, stats=st, name="adv/b1", pos_ok=(lambda k, p, r: p < 12) if q else None)
     sink.finish_cov(st)
     rep.set("states", max(1, total))
